@@ -6,6 +6,7 @@ import (
 	"fmt"
 
 	biscuit "github.com/biscuit-auth/biscuit-go/v2"
+	"github.com/biscuit-auth/biscuit-go/v2/datalog"
 
 	"verif/harness/ast"
 	"verif/harness/core"
@@ -220,6 +221,7 @@ func c16Run(c *core.C) {
 	}
 	c16SharedSource(c, priv, right, wrong, id, lookups)
 	c16BuilderAgain(c, priv, right, wrong, id, lookups)
+	c16OptionOrders(c, priv, right, wrong, id, lookups)
 	if c.Idx%97 == 0 {
 		c.Sample(map[string]any{"kind": "key-id history", "id": idText(id), "history": hist, "lookups_per_token": len(lookups)})
 	}
@@ -263,6 +265,52 @@ func c16BuilderAgain(c *core.C, priv ed25519.PrivateKey, right, wrong ed25519.Pu
 func mustSerialize(b *biscuit.Biscuit) []byte {
 	ser, _ := b.Serialize()
 	return ser
+}
+
+// c16OptionOrders: the identifier is one builder option among others (random source, base symbol
+// table); it reaches the token whatever the order the options are given in.
+func c16OptionOrders(c *core.C, priv ed25519.PrivateKey, right, wrong ed25519.PublicKey, id *uint32, lookups []c16Lookup) {
+	if id == nil {
+		return
+	}
+	base := &datalog.SymbolTable{}
+	base.Insert("tenant")
+	base.Insert("acme")
+	mk := map[string]func() biscuit.Builder{
+		"id, symbols": func() biscuit.Builder {
+			return biscuit.NewBuilder(priv, biscuit.WithRootKeyID(*id), biscuit.WithSymbols(base))
+		},
+		"symbols, id": func() biscuit.Builder {
+			return biscuit.NewBuilder(priv, biscuit.WithSymbols(base), biscuit.WithRootKeyID(*id))
+		},
+		"rng, id, symbols": func() biscuit.Builder {
+			return biscuit.NewBuilder(priv, biscuit.WithRNG(lib.NewDetRand(c.Seed, "c16-oo")), biscuit.WithRootKeyID(*id), biscuit.WithSymbols(base))
+		},
+		"id, rng": func() biscuit.Builder {
+			return biscuit.NewBuilder(priv, biscuit.WithRootKeyID(*id), biscuit.WithRNG(lib.NewDetRand(c.Seed, "c16-oo2")))
+		},
+		"id, symbols, rng": func() biscuit.Builder {
+			return biscuit.NewBuilder(priv, biscuit.WithRootKeyID(*id), biscuit.WithSymbols(base), biscuit.WithRNG(lib.NewDetRand(c.Seed, "c16-oo3")))
+		},
+	}
+	for _, order := range []string{"id, symbols", "symbols, id", "rng, id, symbols", "id, rng", "id, symbols, rng"} {
+		var b *biscuit.Biscuit
+		var err error
+		if pi := lib.Try(func() {
+			bld := mk[order]()
+			_ = bld.AddAuthorityFact(ast.P("tenant", ast.Str("acme")).LibFact())
+			b, err = bld.Build()
+		}); pi != nil {
+			c.Violate("build-panic/"+pi.Site, pi.Msg, map[string]any{"options": order})
+			continue
+		}
+		if err != nil {
+			c.Violate("build-refused", fmt.Sprintf("options (%s): %v", order, err), nil)
+			continue
+		}
+		c16CheckToken(c, b, id, "build with options ("+order+")", right, wrong, lookups[:6])
+		c.Count("option_order_tokens", 1)
+	}
 }
 
 // c16SharedSource: ONE key source value is used for a sequence of tokens with different
